@@ -1,4 +1,4 @@
-SOURCE_COMMITS = ['2a82dd5', '23b3277', 'd11a4bc', '0ff938d', 'f5c3f96']
+SOURCE_COMMITS = ['2a82dd5', '23b3277', 'd11a4bc', '0ff938d', 'f5c3f96', '4d27d01']
 NOTES = ('Exit codes of ./check: 0 all obligations discharged; 1 violation (VIOLATION line); '
          '2 undecided (solver unknown / extraction failure / contract binding lost); 3 checker crash. '
          'See DESIGN.md.')
@@ -69,4 +69,12 @@ CLAIMED = {
         '(594 cases: all dtypes x shapes x layouts x byte orders, rejects, nested trees, SQLite builder) cross-checks the axioms.',
    note='Trusted: NumPy dtype/tobytes/frombuffer contracts, msgpack/zlib/pickle/sqlite3 round trips. Bounded only: nested-structure '
         'recursion of msgpack, SQLite builder round trip.'),
+ 'C07': dict(
+   text='Unbounded proof (any number of trees, any non-negative weights, at an arbitrary leaf coordinate) that the real tree_mean / '
+        'tree_sum loops compute sum(w_i p_i)/sum(w_i) with the zero guard, stay inside the [min,max] hull, consume a one-pass iterator '
+        'exactly once, never donate or alias a caller buffer (ownership tracked through jax.jit(donate_argnums)), that '
+        'tree_clip_by_global_norm is s*t with 0<=s<=1, norm <= bound, identity below the bound; plus an IEEE float32 obligation '
+        '(z3 FP theory) for the zero-norm corner.',
+   note='Trusted: R arithmetic for arrays, tree_map leafwise, jit = identity + donation, norm homogeneity, tree_l2_squared is the '
+        'squared norm; order independence is commutativity of + (not a separate obligation). Not covered: rounding error size.'),
 }
